@@ -136,6 +136,31 @@ def r3_continue_after(ctx):
             ctx.ob("C13.R3", "continue-after-stops-silently", no_cons and not err,
                    "under ContinueAfter, an exceeded bound sets next_task = Stopped and returns Ok without consulting the scheduler or building an error", loc=sch.loc(s))
     ctx.floor("C13.R3", "`next_task = Stopped` under the bound test", found, 1)
+    # "abandoned silently and the run goes on": cleanup unwinds the stacks of the abandoned execution's in-flight tasks; a guard on such a
+    # stack reaches thread::switch() from its Drop.  maybe_yield must recognise that state before it asserts anything about current_task
+    # or consults the scheduler — a panic there is a panic in a destructor during an unwind, i.e. a process abort (defect D9).
+    my = ctx.closure(ES + "maybe_yield", ES + "schedule", "C13.R3")
+    sched = [s for s, t in my.calls() if ES + "schedule" in my.callees_of_call(t, passed=False)]
+    panics = [s for s, t in my.calls() if any(kinds.PANIC_RE.search(c) for c in my.callees_of_call(t, passed=False))]
+    fsm = FlowSlicer(my)
+    exits = []
+    for s, st in my.assigns():
+        if st["dst"]["l"] == 0 and not st["dst"].get("p") and st["rv"]["k"] == "use" and st["rv"]["ops"][0].get("k") == "const" and st["rv"]["ops"][0].get("ev") == 0:
+            g = fsm.guard_labels(s)
+            if ("field:" + E + "ExecutionState.in_cleanup") in g and ("field:" + E + "ExecutionState.current_task") in g:
+                before = my.path_exists(None, lambda x, s=s: x == s, lambda x: x in set(sched) | set(panics)) is not None
+                if before:
+                    exits.append(s)
+    ok = bool(exits)
+    if ok:
+        # the test that leads to that exit is evaluated on every path to the assertion and to schedule()
+        sws = [sw for sw in control_deps(my).get(exits[0].bb, ()) if ("field:" + E + "ExecutionState.in_cleanup") in
+               FlowSlicer(my, control=False).operand_labels(my.term(sw)["discr"], my.term_site(sw))]
+        ok = bool(sws) and all(any(my.site_dominates(my.term_site(sw), x) for sw in sws) for x in sched + panics)
+    ctx.ob("C13.R3", "stopped-cleanup-is-a-no-op", ok,
+           "maybe_yield returns false (no assertion, no scheduler consultation, no suspension) when reached while a stopped execution is being cleaned up" if ok else
+           "maybe_yield has no early `return false` for (in_cleanup && current_task == Stopped) ahead of its state assertion / schedule(): a destructor of an "
+           "abandoned execution's in-flight task that reaches a scheduling point panics during the unwind and aborts the process", loc=my.loc())
 
 
 def r4_time_limit(ctx):
